@@ -346,6 +346,7 @@ M('F44R', 'src/xdoctest/utils/util_import.py', """                sys.path.pop(r
 """, """                warnings.warn('\\n'.join(msg_parts))
                 sys.path.pop(real_index)
 """, ['C12'], 'F44 repair reverted: the notice about a changed sys.path is given before the entry is removed')
+M('F45R', 'src/xdoctest/directive.py', """            exists_flag = modname in sys.builtin_module_names""", """            exists_flag = False""", ['C04'], 'F45 repair reverted: REQUIRES(module:sys) is unmet')
 M('F17R', 'src/xdoctest/doctest_example.py', """                part_directive = None
                 try:
                     try:
